@@ -150,7 +150,7 @@ func (w *c28Worker) readBack(payloads []string) (map[string]int64, error) {
 	for _, r := range rs.Data {
 		id, _ := strconv.ParseInt(r[1], 10, 64)
 		if _, dup := out[r[0]]; dup {
-			w.run.c.Violation("c28/duplicate-payload-row", "two rows carry the same unique payload: "+r[0], nil)
+			report(w.run.c, "c28/duplicate-payload-row", "two rows carry the same unique payload: "+r[0], nil)
 		}
 		out[r[0]] = id
 	}
@@ -220,7 +220,7 @@ func (w *c28Worker) insertGenerated(rows int, odku bool) {
 		id, ok := got[p]
 		if !ok {
 			if !odku {
-				w.run.c.Violation("c28/inserted-row-missing", "a row whose INSERT was acknowledged is not visible to the inserting session", map[string]any{"stmt": q, "payload": p})
+				report(w.run.c, "c28/inserted-row-missing", "a row whose INSERT was acknowledged is not visible to the inserting session", map[string]any{"stmt": q, "payload": p})
 			} else {
 				w.note("odku_updates")
 			}
@@ -242,12 +242,12 @@ func (w *c28Worker) insertGenerated(rows int, odku bool) {
 		w.note("last_insert_id_checked")
 		if lastID != first {
 			w.note("last_insert_id_differs_from_first_row")
-			w.run.c.Violation("c28/last-insert-id-mismatch", fmt.Sprintf("LAST_INSERT_ID in the OK packet is %d but the first row inserted by the statement got id %d", lastID, first),
+			report(w.run.c, "c28/last-insert-id-mismatch", fmt.Sprintf("LAST_INSERT_ID in the OK packet is %d but the first row inserted by the statement got id %d", lastID, first),
 				map[string]any{"stmt": q, "rows": got, "session": w.id, "branch": w.branch})
 		}
 		if w.r.Intn(8) == 0 {
 			if v, err := w.x.Scalar("select last_insert_id()"); err == nil && v != fmt.Sprint(first) {
-				w.run.c.Violation("c28/last-insert-id-mismatch", fmt.Sprintf("LAST_INSERT_ID() returns %s but the first row inserted by the statement got id %d", v, first),
+				report(w.run.c, "c28/last-insert-id-mismatch", fmt.Sprintf("LAST_INSERT_ID() returns %s but the first row inserted by the statement got id %d", v, first),
 					map[string]any{"stmt": q, "rows": got, "session": w.id, "branch": w.branch})
 			}
 		}
@@ -398,6 +398,10 @@ func (w *c28Worker) checkout() {
 
 func (w *c28Worker) loop() {
 	for i := 0; i < w.run.opsPer; i++ {
+		if w.run.allowDDL && w.id == 0 && i == w.run.opsPer/2 {
+			w.ddl("drop") // one DROP + CREATE per run with DDL, by session 0, while the others keep inserting
+			continue
+		}
 		switch n := w.r.Intn(100); {
 		case n < 45:
 			w.insertGenerated(1, false)
@@ -415,8 +419,6 @@ func (w *c28Worker) loop() {
 			w.ddl("alter-up")
 		case n < 93 && w.run.allowDDL:
 			w.ddl("alter-down")
-		case n < 96 && w.run.allowDDL && w.id == 0 && i == w.run.opsPer/2:
-			w.ddl("drop")
 		default:
 			w.insertGenerated(1, false)
 		}
@@ -445,7 +447,7 @@ func c28(c *rig.Ctx) {
 	c.Assume("the ledger is cut at DROP TABLE (sequence may restart); ids consumed by failed or rolled-back statements are gaps")
 	srv, stop := startServer(c, "c28")
 	defer stop()
-	nruns := c.Pick(16, 400)
+	nruns := c.Pick(6, 60)
 	tot := map[string]int{}
 	for i := 0; i < nruns; i++ {
 		r := c.SubRand("c28cfg", i)
@@ -464,7 +466,7 @@ func c28(c *rig.Ctx) {
 		if i < 2 {
 			c.Sample(map[string]any{"db": run.db, "sessions": run.sessions, "stats": st, "ledger_head": head(run.ledger, 6)})
 		}
-		if c.Violations() > 20 {
+		if distinctViolationKeys() > 8 {
 			break
 		}
 	}
@@ -476,6 +478,7 @@ func c28(c *rig.Ctx) {
 	c.Require(tot["hb_pairs_checked"] > 0, "no happens-before pair of inserts")
 	c.Require(tot["explicit_above_ok"] > 0, "no explicit id above the sequence was accepted")
 	c.Require(tot["multi_row_insert_stmts"] > 0 && tot["tx_rollback"] > 0 && tot["branch_switches"] > 0, "multi-row inserts, rollbacks or branch switches missing from the workload")
+	countReported(c, "c28")
 	scanOwnRaceReports(c, "C28", c28RaceFuncs)
 }
 
@@ -611,7 +614,7 @@ func (run *c28Run) analyse() map[string]int {
 					key = "c28/after-lowering-alter/duplicate-generated-id/" + cls
 					what += " (an ALTER TABLE … AUTO_INCREMENT = N with N at or below it ran in between; both rows were committed)"
 				}
-				c.Violation(key, what, wit(a, b))
+				report(c, key, what, wit(a, b))
 			}
 		}
 	}
@@ -669,7 +672,7 @@ func (run *c28Run) analyse() map[string]int {
 				}
 				key = "c28/after-lowering-alter/sequence-went-backwards/" + cls
 			}
-			c.Violation(key, fmt.Sprintf("insert invoked at %d was given generated id %d although an insert that had returned at %d held id %d (%s)", g.Call, g.ID, m.Ret, m.ID, m.Kind), wit(m, g))
+			report(c, key, fmt.Sprintf("insert invoked at %d was given generated id %d although an insert that had returned at %d held id %d (%s)", g.Call, g.ID, m.Ret, m.ID, m.Kind), wit(m, g))
 			break
 		}
 	}
